@@ -470,15 +470,24 @@ func (m *RWMutex) RUnlock() {
 	unblock(m)
 }
 
-// Pool replaces sync.Pool with the (permitted) behaviour of never retaining anything.
+// Pool replaces sync.Pool with the most adversarial behaviour its contract permits: everything that is Put is
+// retained and handed to the next Get of ANY goroutine (last in, first out). A buffer that is still in use after it
+// was Put is thereby really shared.
 type Pool struct {
-	New func() any
+	New   func() any
+	items []any
 }
 
 func (p *Pool) Get() any {
+	if n := len(p.items); n > 0 {
+		x := p.items[n-1]
+		p.items = p.items[:n-1]
+		return x
+	}
 	if p.New != nil {
 		return p.New()
 	}
 	return nil
 }
-func (p *Pool) Put(any) {}
+
+func (p *Pool) Put(x any) { p.items = append(p.items, x) }
